@@ -434,19 +434,27 @@ Proof.
 Qed.
 
 (* ================================================================ jls_wr_ts_close *)
+Lemma sf_ts_close_step : forall sid L x0, sf_tx_ok x0 -> 1 <= L <= 15 ->
+  sf_tx_ok (wm_ts_commit wm_level_count sid true L x0) /\
+  sf_bext (wm_tx_base x0) (wm_tx_base (wm_ts_commit wm_level_count sid true L x0)).
+Proof.
+  intros sid L x0 H0 HL.
+  assert (Hfuel : (16 <= wm_level_count + N.to_nat L)%nat) by (unfold wm_level_count, JLS_SUMMARY_LEVEL_COUNT; lia).
+  assert (Hpre : true = false -> exists lv, wm_ts_get (wm_tx_ts x0) L = Some lv /\ wm_ts_dec (wm_tx_ts x0) <= wm_tl_nidx lv /\
+                               sf_ts_w (wm_tx_ts x0) (N.to_nat L) < wm_ts_dec (wm_tx_ts x0) ^ 16) by discriminate.
+  pose proof (sf_ts_commit_spec wm_level_count sid true L x0 H0 HL Hfuel Hpre) as K.
+  cbv zeta in K. destruct K as (K1 & K2 & _). split; assumption.
+Time Qed.
+
 Lemma sf_ts_close_fold : forall sid ls x0, sf_tx_ok x0 -> Forall (fun L => 1 <= L <= 15) ls ->
   sf_tx_ok (fold_left (fun x1 level => wm_ts_commit wm_level_count sid true level x1) ls x0) /\
   sf_bext (wm_tx_base x0) (wm_tx_base (fold_left (fun x1 level => wm_ts_commit wm_level_count sid true level x1) ls x0)).
 Proof.
   intros sid. induction ls as [|L ls IH]; intros x0 H0 Hls; [split; [exact H0 | apply sf_bext_refl]|].
   inversion Hls as [|? ? HL Hls']; subst. cbn [fold_left].
-  assert (Hfuel : (16 <= wm_level_count + N.to_nat L)%nat) by (unfold wm_level_count, JLS_SUMMARY_LEVEL_COUNT; lia).
-  assert (Hpre : true = false -> exists lv, wm_ts_get (wm_tx_ts x0) L = Some lv /\ wm_ts_dec (wm_tx_ts x0) <= wm_tl_nidx lv /\
-                               sf_ts_w (wm_tx_ts x0) (N.to_nat L) < wm_ts_dec (wm_tx_ts x0) ^ 16) by discriminate.
-  pose proof (sf_ts_commit_spec wm_level_count sid true L x0 H0 HL Hfuel Hpre) as K.
-  cbv zeta in K. destruct K as (K1 & K2 & _).
+  destruct (sf_ts_close_step sid L x0 H0 HL) as [K1 K2].
   destruct (IH _ K1 Hls') as [J1 J2]. split; [exact J1 | eapply sf_bext_trans; eassumption].
-Qed.
+Time Qed.
 
 Lemma sf_close_levels_range : Forall (fun L => 1 <= L <= 15) wm_close_levels.
 Proof. unfold wm_close_levels. repeat (constructor; [lia|]). constructor. Qed.
